@@ -2,6 +2,7 @@
 //! recording / fault-injecting file-system seam and computed crash images.
 
 mod books;
+mod bytesim;
 mod conserve;
 mod crash;
 mod exec;
@@ -19,9 +20,13 @@ use std::path::Path;
 
 use util::Args;
 
+#[global_allocator]
+static GLOBAL: bytesim::alloc_cap::CapAlloc = bytesim::alloc_cap::CapAlloc;
+
 pub fn replay_other(engine: &str, text: &str, path: &Path) -> i32 {
     match engine {
         "manisim" => manisim::replay(text, path),
+        "bytesim" | "bytesim-log" => bytesim::replay(text, path),
         _ => {
             eprintln!("HARNESS-ERROR: unknown replay engine {engine}");
             2
@@ -51,6 +56,7 @@ fn main() {
         "seq" => seq::cmd_seq(&args),
         "crash" => crash::cmd_crash(&args),
         "mani" => manisim::cmd_mani(&args),
+        "bytes" => bytesim::cmd_bytes(&args),
         "replay" => {
             let p = args.free.first().cloned().unwrap_or_default();
             seq::cmd_replay(Path::new(&p))
